@@ -252,4 +252,5 @@ pub fn run(out: &mut Out, tier: &str, seed: u64) {
             if !r.is_err() { out.hit(&format!("serde.bincode.fixed-length.accepts-{}-bytes", if newlen < 16 { "short" } else { "long" }), format!("DryocSecretBox.tag with {} bytes", newlen), json!({"op":"serde.bincode_decode.DryocSecretBox","bytes":hx(&e2)})); }
         }
     }
+    { let mut rng2 = Rng::new(seed, "c16-extra"); crate::objapi::conversions(out, &mut rng2); }
 }
